@@ -231,7 +231,7 @@ UNIT = Unit(
                      (re.compile(r"let new_params = \{ let mut __mo0 = Vec::new\(\);"), "let new_params = { let mut __mo0: Vec<(hir::LocalId, hir::TypeExpr)> = Vec::new();", "*"),
                      (re.compile(r"\(&(\w+(?:\.\w+)*)\)\.into\(\)"), r"type_expr_into(&\1)", "*")],
            obligation="every parameter gets a binder of its own (a fresh id, also when two parameters share a name) and is entered into the environment in order",
-           contract="ensures params_bound(params@, r.0.0@, r.1@), params_import_checked(r.1@),",
+           contract="ensures params_bound(params@, r.0.0@, r.1@),\n  params_import_checked(r.1@),",      # one clause per line: the verifier names the failed clause by its line, and clause_scope tells C05 from C16 by it
            loop_fn=lambda k, header, kw, body: PARAM_LOOPS(header, body)),
         Fn(file=N, name="resolve_fn", container=NR, as_method_of=NR, rename="resolve_fn_ret", ret="r", rules=["attrs", "opt_map"],
            pre_rewrites=[(re.compile(r"(?s)\A.*\Z"), ret_expr_only, 1)],
